@@ -93,10 +93,12 @@ CLAIMS = {
         ref='DESIGN.md section 5 C14',
         text='Static. Decided clauses: from_unixtime builds the UTC value with from_timestamp(N as i64, 0), to_unixtime reads .timestamp() of the stored UTC value or of midnight, with no offset arithmetic in between; Raw numbers print with a 64-bit cast; patterns bind the fields read. Not decided: calendar correctness of chrono.'),
     'C15': dict(
-        technique='reader/printer table agreement on data (regex-syntax classes vs printed shapes, per kind and language)',
+        technique='reader/printer table agreement: printed shapes (format strings of config.json, format templates and literals found as MIR constants, symbol placement table) checked for membership in the reader\'s tables and in the regex-syntax HIR of the reader\'s regexes, per kind and language',
         ref='DESIGN.md section 5 C15',
-        text='Static, table level. Decided clauses: for each kind and language the printed shape (format strings, word tables, symbols) is inside the reader\'s tables: duration words, date shapes and month names, time+zone shape and the rule that consumes it, percent, money symbol class/placement/resolution, unit words, based integers. '
-             'Not decided: equality of the re-read value.'),
+        text='Static, table level. Decided clauses: A1 every word of a duration format of language L is a duration word of L of the same kind and in L\'s duration word group, L configures the reading and combining rules, and the duration printer emits counts, words and blanks only; A2 each date format of L has the token-class sequence and field names of one of L\'s date patterns and month names come from L\'s month table; '
+             'A3 HH:MM:SS is in the language of a time regex, zone names are in the zone regex, L has the rule that reads a time followed by a zone; A4 printed number / percent samples in every separator configuration of the quantifier are in the reader\'s regexes, the percent sign position agrees; '
+             'A5 for the currencies nameable through the alias table the printed symbol is inside the CURRENCY class of a money regex with the same placement and resolves back to the same currency; A6 the word of every unit format is a word its parse patterns accept, number first; A7 based-integer prefix / digit alphabet and regex order (shared with C13). '
+             'Not decided: that the re-read value prints identically (depends on rounding, C07, and on regex competition between families).'),
     'C16': dict(
         technique='origin-scoped comparison rule (case normalisation of both operands), table-case data rules, argument wiring of the noise parsers, per-stage producer-order rule over the parser registries, finite enumeration of interval orderings for the claim predicate',
         ref='DESIGN.md section 5 C16',
